@@ -60,7 +60,7 @@ from ._loaders_dumpers import (
     json_or_yaml_loader_exceptions,
     load_value,
 )
-from ._namespace import Namespace
+from ._namespace import Namespace, recreate_branches
 from ._optionals import (
     capture_typing_extension_shadows,
     get_alias_target,
@@ -531,6 +531,8 @@ class ActionTypeHint(Action):
                 raise ValueError("ActionTypeHint does not allow nargs=0.")
             return ActionTypeHint(**kwargs)
         cfg, val, opt_str = args[1:]
+        if val is self.default:
+            val = recreate_branches(val)  # argparse hands over a positional's declared default object itself
         if not (self.nargs == "?" and val is None):
             if isinstance(opt_str, str) and opt_str.startswith(f"--{self.dest}."):
                 if opt_str.startswith(f"--{self.dest}.init_args."):
